@@ -136,14 +136,18 @@ def body(ctx):
     rng = random.Random(ctx.seed)
     f1 = any(f.status == 'open' and f.fid == 'F1' for f in load_findings())
     # 1. design
-    for (dev, expect) in ((None, None), ('IgnoreShortWrite', 'PeerGetsAll'), ('ResubmitStale', 'PeerGetsAll'), ('LockPerCall', 'Contiguous')):
+    for (dev, expect) in ((None, None), ('IgnoreShortWrite', 'PeerGetsAll'), ('ResubmitStale', 'PeerGetsAll'), ('LockPerCall', 'Contiguous'),
+                          ('DeferRef', None), ('DeferRef+ReuseHeader', 'InOrderNoGap'), ('ReuseHeader', None)):
         consts = {'HdrLen': '3', 'PayLens': '{0,1,2,3}', 'MaxCap': '4', 'Writers': '{"a","b"}', 'MaxFails': '1',
-                  'IgnoreShortWrite': 'FALSE', 'ResubmitStale': 'FALSE', 'LockPerCall': 'FALSE'}
-        if dev:
-            consts[dev] = 'TRUE'
+                  'IgnoreShortWrite': 'FALSE', 'ResubmitStale': 'FALSE', 'LockPerCall': 'FALSE', 'DeferRef': 'FALSE', 'ReuseHeader': 'FALSE'}
+        for d_ in (dev.split('+') if dev else []):
+            consts[d_] = 'TRUE'
+        label = dev or 'intended'
+        if dev in ('DeferRef', 'ReuseHeader'):
+            dev = None          # an environment (a transport that transmits the queued object later) / a variant that is harmless alone: must hold like the intended design
         cfg = tlc.cfg_text(constants=consts, invariants=['PeerGetsAll', 'InOrderNoGap', 'Contiguous', 'LockFreeAtEnd'], deadlock=True)
         r = tlc.run('AdbWriter', cfg)
-        ctx.add_tlc(r, 'AdbWriter %s' % (dev or 'intended'))
+        ctx.add_tlc(r, 'AdbWriter %s' % label)
         names = [v['name'] for v in r.violations]
         if dev is None and names:
             ctx.violation('C15.' + names[0] + '(design)', dict(kind='design-counterexample', state=r.violations[0]['trace'][-1][:400]))
